@@ -41,16 +41,29 @@ class Tier:
     sorted: bool
     exhaustive: bool
     why: str = ''
+    pair: bool = False  # elements are (event_id, event) pairs (from .items()) rather than events
 
 
-def is_created_key(k: ast.AST | None) -> str:
-    """'ts' for `lambda e: e.event_created_at.timestamp()` (also through a tuple element `x[1]`), 'naive' when datetimes are compared directly, '' otherwise."""
-    if not isinstance(k, ast.Lambda):
+def _event_of(e: ast.AST, var: str, pair: bool) -> bool:
+    """e denotes the event of the element bound to *var*: the element itself, or its second component when elements are (id, event) pairs."""
+    if pair:
+        return isinstance(e, ast.Subscript) and isinstance(e.value, ast.Name) and e.value.id == var and isinstance(e.slice, ast.Constant) and e.slice.value == 1
+    return isinstance(e, ast.Name) and e.id == var
+
+
+def is_created_key(k: ast.AST | None, pair: bool = False) -> str:
+    """'ts' for `lambda e: e.event_created_at.timestamp()`, 'naive' when datetimes are compared directly, '' otherwise."""
+    if not isinstance(k, ast.Lambda) or len(k.args.args) != 1:
         return ''
-    b = U(k.body)
-    if b.endswith('.event_created_at.timestamp()') and not isinstance(k.body, ast.Tuple):
-        return 'ts'
-    if b.endswith('.event_created_at') and not isinstance(k.body, ast.Tuple):
+    return _created_expr(k.body, k.args.args[0].arg, pair)
+
+
+def _created_expr(b: ast.AST, var: str, pair: bool) -> str:
+    if isinstance(b, ast.Call) and isinstance(b.func, ast.Attribute) and b.func.attr == 'timestamp' and not b.args:
+        a = b.func.value
+        if isinstance(a, ast.Attribute) and a.attr == 'event_created_at' and _event_of(a.value, var, pair):
+            return 'ts'
+    if isinstance(b, ast.Attribute) and b.attr == 'event_created_at' and _event_of(b.value, var, pair):
         return 'naive'
     return ''
 
@@ -65,6 +78,8 @@ class TierEval:
         self.notes: list[str] = []
         self.naive_sort: ast.AST | None = None
         self._depth = 0
+        self._pair = False  # while a predicate is evaluated: are the elements pairs?
+        self.rank_dicts: dict[str, dict[str, int]] = {}
 
     # -- element predicates -------------------------------------------------------------------
     def admits(self, test: ast.AST, var: str, state: str):
@@ -72,7 +87,7 @@ class TierEval:
         st = STATE[state]
 
         def val(e: ast.AST):
-            if isinstance(e, ast.Attribute) and isinstance(e.value, ast.Name) and e.value.id == var and e.attr in st:
+            if isinstance(e, ast.Attribute) and _event_of(e.value, var, self._pair) and e.attr in st:
                 return st[e.attr]
             if isinstance(e, ast.Constant):
                 return ('const', e.value)
@@ -104,7 +119,7 @@ class TierEval:
                         return None
                     r = a in lits
                     return r if isinstance(op, ast.In) else (not r)
-                if isinstance(op, (ast.In, ast.NotIn)) and isinstance(t.left, ast.Attribute) and isinstance(t.left.value, ast.Name) and t.left.value.id == var and t.left.attr == 'event_id' \
+                if isinstance(op, (ast.In, ast.NotIn)) and isinstance(t.left, ast.Attribute) and _event_of(t.left.value, var, self._pair) and t.left.attr == 'event_id' \
                         and isinstance(t.comparators[0], ast.Name) and self.idsets.get(t.comparators[0].id):
                     tiers = self.idsets[t.comparators[0].id]
                     covered = frozenset().union(*[x.statuses for x in tiers])
@@ -135,9 +150,10 @@ class TierEval:
 
         return ev(test)
 
-    def narrow(self, tiers: list[Tier], tests: list[ast.AST], var: str) -> list[Tier] | None:
+    def narrow(self, tiers: list[Tier], tests: list[ast.AST], var: str, pair: bool | None = None) -> list[Tier] | None:
         out = []
         for t in tiers:
+            self._pair = t.pair if pair is None else pair
             keep = set()
             for s in t.statuses:
                 vs = [self.admits(x, var, s) for x in tests]
@@ -146,7 +162,8 @@ class TierEval:
                 if all(vs):
                     keep.add(s)
             if keep:
-                out.append(Tier(frozenset(keep), t.sorted, t.exhaustive, t.why))
+                out.append(Tier(frozenset(keep), t.sorted, t.exhaustive, t.why, t.pair))
+        self._pair = False
         return out
 
     # -- list expressions ---------------------------------------------------------------------
@@ -155,6 +172,8 @@ class TierEval:
         txt = U(e)
         if txt in (f'{H}.values()', f'list({H}.values())'):
             return [Tier(ALL, False, True, 'the whole history in insertion order')]
+        if txt in (f'{H}.items()', f'list({H}.items())'):
+            return [Tier(ALL, False, True, 'the whole history in insertion order', True)]
         if isinstance(e, ast.Name):
             return self.env.get(e.id)
         if isinstance(e, ast.Attribute) and isinstance(e.value, ast.Name) and e.value.id == self.self_:
@@ -178,28 +197,77 @@ class TierEval:
                 return None if any(p is None for p in parts) else [t for p in parts for t in p]
         if isinstance(e, ast.Subscript) and isinstance(e.slice, ast.Slice) and e.slice.lower is None and e.slice.upper is None and e.slice.step is None:
             return self.ev(e.value)
-        if isinstance(e, (ast.ListComp, ast.GeneratorExp)) and len(e.generators) == 1 and isinstance(e.generators[0].target, ast.Name) and not e.generators[0].is_async:
+        if isinstance(e, (ast.ListComp, ast.GeneratorExp)) and len(e.generators) == 1 and not e.generators[0].is_async:
             g = e.generators[0]
-            if not (isinstance(e.elt, ast.Name) and e.elt.id == g.target.id):
-                return None
             src = self.ev(g.iter)
             if src is None:
                 return None
-            return self.narrow(src, list(g.ifs), g.target.id) if g.ifs else src
+            if isinstance(g.target, ast.Name):
+                if not (isinstance(e.elt, ast.Name) and e.elt.id == g.target.id):
+                    return None
+                return self.narrow(src, list(g.ifs), g.target.id) if g.ifs else src
+            # `[(i, ev) for i, ev in <pairs> if <test on ev>]`: same pairs, filtered
+            if isinstance(g.target, ast.Tuple) and len(g.target.elts) == 2 and all(isinstance(x, ast.Name) for x in g.target.elts) and all(t.pair for t in src) \
+                    and isinstance(e.elt, ast.Tuple) and [U(x) for x in e.elt.elts] == [x.id for x in g.target.elts]:
+                return self.narrow(src, list(g.ifs), g.target.elts[1].id, pair=False) if g.ifs else src
+            # `[ev for _, ev in <pairs> ...]`: the events of the pairs
+            if isinstance(g.target, ast.Tuple) and len(g.target.elts) == 2 and all(isinstance(x, ast.Name) for x in g.target.elts) and all(t.pair for t in src) \
+                    and isinstance(e.elt, ast.Name) and e.elt.id == g.target.elts[1].id:
+                r = self.narrow(src, list(g.ifs), g.target.elts[1].id, pair=False) if g.ifs else src
+                return None if r is None else [Tier(t.statuses, t.sorted, t.exhaustive, t.why, False) for t in r]
         return None
+
+    def rank_of(self, b: ast.AST, var: str, pair: bool) -> dict[str, int] | None:
+        """`D[<ev>.event_status]` / `D.get(<ev>.event_status)` with D a local bound to a literal {status: int}: the rank table."""
+        d = key = None
+        if isinstance(b, ast.Subscript) and isinstance(b.value, ast.Name):
+            d, key = b.value.id, b.slice
+        elif isinstance(b, ast.Call) and isinstance(b.func, ast.Attribute) and b.func.attr == 'get' and isinstance(b.func.value, ast.Name) and len(b.args) == 1:
+            d, key = b.func.value.id, b.args[0]
+        if d is None or d not in self.rank_dicts:
+            return None
+        if not (isinstance(key, ast.Attribute) and key.attr == 'event_status' and _event_of(key.value, var, pair)):
+            return None
+        return self.rank_dicts[d]
 
     def sort(self, tiers: list[Tier] | None, call: ast.Call) -> list[Tier] | None:
         if tiers is None:
             return None
+        if not tiers:
+            return []
+        pair = tiers[0].pair
         k = next((kw.value for kw in call.keywords if kw.arg == 'key'), None)
         rev = next((kw.value for kw in call.keywords if kw.arg == 'reverse'), None)
-        kind = is_created_key(k)
-        if not kind or (rev is not None and not (isinstance(rev, ast.Constant) and rev.value is False)):
+        if rev is not None and not (isinstance(rev, ast.Constant) and rev.value is False):
             return None
-        if kind == 'naive':
-            self.naive_sort = call
-        sts = frozenset().union(*[t.statuses for t in tiers]) if tiers else frozenset()
-        return [Tier(sts, True, all(t.exhaustive for t in tiers), 'sorted oldest-first as one run')] if tiers else []
+        if not isinstance(k, ast.Lambda) or len(k.args.args) != 1:
+            return None
+        var = k.args.args[0].arg
+        sts = frozenset().union(*[t.statuses for t in tiers])
+        exh = all(t.exhaustive for t in tiers)
+        kind = _created_expr(k.body, var, pair)
+        if kind:
+            if kind == 'naive':
+                self.naive_sort = call
+            return [Tier(sts, True, exh, 'sorted oldest-first as one run', pair)]
+        # by status rank (a stable sort: within one rank the previous order survives), or by (rank, created)
+        rank = self.rank_of(k.body, var, pair)
+        then_created = ''
+        if rank is None and isinstance(k.body, ast.Tuple) and len(k.body.elts) == 2:
+            rank = self.rank_of(k.body.elts[0], var, pair)
+            then_created = _created_expr(k.body.elts[1], var, pair)
+            if not then_created:
+                return None
+            if then_created == 'naive':
+                self.naive_sort = call
+        if rank is None or not sts <= set(rank):
+            return None
+        was_sorted = bool(then_created) or (len(tiers) == 1 and tiers[0].sorted)
+        out = []
+        for r in sorted({rank[s_] for s_ in sts}):
+            grp = frozenset(s_ for s_ in sts if rank[s_] == r)
+            out.append(Tier(grp, was_sorted, exh, 'grouped by the rank table' + ('' if was_sorted else '; within a group the order is whatever it was before'), pair))
+        return out
 
     def prop(self, name: str) -> list[Tier] | None:
         if self._depth > 3:
@@ -225,6 +293,10 @@ class TierEval:
                 tgt = st.targets[0] if isinstance(st, ast.Assign) else st.target
                 if isinstance(tgt, ast.Name):
                     v = st.value
+                    if isinstance(v, ast.Dict) and v.keys and all(isinstance(k_, ast.Constant) and isinstance(k_.value, str) for k_ in v.keys) \
+                            and all(isinstance(x, ast.Constant) and isinstance(x.value, (int, float)) and not isinstance(x.value, bool) for x in v.values):
+                        self.rank_dicts[tgt.id] = {k_.value: x.value for k_, x in zip(v.keys, v.values)}
+                        continue
                     if isinstance(v, ast.SetComp) and len(v.generators) == 1 and isinstance(v.generators[0].target, ast.Name) and U(v.elt) == f'{v.generators[0].target.id}.event_id':
                         g = v.generators[0]
                         src = self.ev(g.iter)
